@@ -125,22 +125,20 @@ Record conn := mkConn {
   olog : list ocb;
   ready : list kont;
   out : list pkt;
-  done : list dev;
-  late_used : bool
+  done : list dev
 }.
-Definition set_chans (v : list chan) (r : conn) : conn := mkConn v (transport r) (rx_ok r) (closed r) (glob_w r) (cclosed_w r) (connect_w r) (owner_live r) (olog r) (ready r) (out r) (done r) (late_used r).
-Definition set_transport (v : bool) (r : conn) : conn := mkConn (chans r) v (rx_ok r) (closed r) (glob_w r) (cclosed_w r) (connect_w r) (owner_live r) (olog r) (ready r) (out r) (done r) (late_used r).
-Definition set_rx_ok (v : bool) (r : conn) : conn := mkConn (chans r) (transport r) v (closed r) (glob_w r) (cclosed_w r) (connect_w r) (owner_live r) (olog r) (ready r) (out r) (done r) (late_used r).
-Definition set_closed (v : bool) (r : conn) : conn := mkConn (chans r) (transport r) (rx_ok r) v (glob_w r) (cclosed_w r) (connect_w r) (owner_live r) (olog r) (ready r) (out r) (done r) (late_used r).
-Definition set_glob_w (v : nat) (r : conn) : conn := mkConn (chans r) (transport r) (rx_ok r) (closed r) v (cclosed_w r) (connect_w r) (owner_live r) (olog r) (ready r) (out r) (done r) (late_used r).
-Definition set_cclosed_w (v : nat) (r : conn) : conn := mkConn (chans r) (transport r) (rx_ok r) (closed r) (glob_w r) v (connect_w r) (owner_live r) (olog r) (ready r) (out r) (done r) (late_used r).
-Definition set_connect_w (v : bool) (r : conn) : conn := mkConn (chans r) (transport r) (rx_ok r) (closed r) (glob_w r) (cclosed_w r) v (owner_live r) (olog r) (ready r) (out r) (done r) (late_used r).
-Definition set_owner_live (v : bool) (r : conn) : conn := mkConn (chans r) (transport r) (rx_ok r) (closed r) (glob_w r) (cclosed_w r) (connect_w r) v (olog r) (ready r) (out r) (done r) (late_used r).
-Definition set_olog (v : list ocb) (r : conn) : conn := mkConn (chans r) (transport r) (rx_ok r) (closed r) (glob_w r) (cclosed_w r) (connect_w r) (owner_live r) v (ready r) (out r) (done r) (late_used r).
-Definition set_ready (v : list kont) (r : conn) : conn := mkConn (chans r) (transport r) (rx_ok r) (closed r) (glob_w r) (cclosed_w r) (connect_w r) (owner_live r) (olog r) v (out r) (done r) (late_used r).
-Definition set_out (v : list pkt) (r : conn) : conn := mkConn (chans r) (transport r) (rx_ok r) (closed r) (glob_w r) (cclosed_w r) (connect_w r) (owner_live r) (olog r) (ready r) v (done r) (late_used r).
-Definition set_done (v : list dev) (r : conn) : conn := mkConn (chans r) (transport r) (rx_ok r) (closed r) (glob_w r) (cclosed_w r) (connect_w r) (owner_live r) (olog r) (ready r) (out r) v (late_used r).
-Definition set_late_used (v : bool) (r : conn) : conn := mkConn (chans r) (transport r) (rx_ok r) (closed r) (glob_w r) (cclosed_w r) (connect_w r) (owner_live r) (olog r) (ready r) (out r) (done r) v.
+Definition set_chans (v : list chan) (r : conn) : conn := mkConn v (transport r) (rx_ok r) (closed r) (glob_w r) (cclosed_w r) (connect_w r) (owner_live r) (olog r) (ready r) (out r) (done r).
+Definition set_transport (v : bool) (r : conn) : conn := mkConn (chans r) v (rx_ok r) (closed r) (glob_w r) (cclosed_w r) (connect_w r) (owner_live r) (olog r) (ready r) (out r) (done r).
+Definition set_rx_ok (v : bool) (r : conn) : conn := mkConn (chans r) (transport r) v (closed r) (glob_w r) (cclosed_w r) (connect_w r) (owner_live r) (olog r) (ready r) (out r) (done r).
+Definition set_closed (v : bool) (r : conn) : conn := mkConn (chans r) (transport r) (rx_ok r) v (glob_w r) (cclosed_w r) (connect_w r) (owner_live r) (olog r) (ready r) (out r) (done r).
+Definition set_glob_w (v : nat) (r : conn) : conn := mkConn (chans r) (transport r) (rx_ok r) (closed r) v (cclosed_w r) (connect_w r) (owner_live r) (olog r) (ready r) (out r) (done r).
+Definition set_cclosed_w (v : nat) (r : conn) : conn := mkConn (chans r) (transport r) (rx_ok r) (closed r) (glob_w r) v (connect_w r) (owner_live r) (olog r) (ready r) (out r) (done r).
+Definition set_connect_w (v : bool) (r : conn) : conn := mkConn (chans r) (transport r) (rx_ok r) (closed r) (glob_w r) (cclosed_w r) v (owner_live r) (olog r) (ready r) (out r) (done r).
+Definition set_owner_live (v : bool) (r : conn) : conn := mkConn (chans r) (transport r) (rx_ok r) (closed r) (glob_w r) (cclosed_w r) (connect_w r) v (olog r) (ready r) (out r) (done r).
+Definition set_olog (v : list ocb) (r : conn) : conn := mkConn (chans r) (transport r) (rx_ok r) (closed r) (glob_w r) (cclosed_w r) (connect_w r) (owner_live r) v (ready r) (out r) (done r).
+Definition set_ready (v : list kont) (r : conn) : conn := mkConn (chans r) (transport r) (rx_ok r) (closed r) (glob_w r) (cclosed_w r) (connect_w r) (owner_live r) (olog r) v (out r) (done r).
+Definition set_out (v : list pkt) (r : conn) : conn := mkConn (chans r) (transport r) (rx_ok r) (closed r) (glob_w r) (cclosed_w r) (connect_w r) (owner_live r) (olog r) (ready r) v (done r).
+Definition set_done (v : list dev) (r : conn) : conn := mkConn (chans r) (transport r) (rx_ok r) (closed r) (glob_w r) (cclosed_w r) (connect_w r) (owner_live r) (olog r) (ready r) (out r) v.
 
 (* ---------------------------------------------------------------------------------------- *)
 (* Channel-level code runs in a context: the channel, and the continuations scheduled, packets
@@ -338,12 +336,17 @@ Definition req_false (c : nat) (x : cx) : cx := create_done c WErr (chan_close c
 (* _make_request: returns False at once when _send_chan is None *)
 Definition make_request (c : nat) (st : stage) (x : cx) : cx :=
   if schan (x_ch x) then upc (set_pc (CWaitReq st)) (csend (KtReq c st) x) else req_false c x.
-Definition create_step (c : nat) (tr : bool) (x : cx) : cx :=
+(* `guard` = the check added by /repo cd5d87d in SSHChannel._open(): once the open waiter has been
+   resolved the opener re-checks that the channel still has its connection (false = the code before
+   that commit: the session was created and told connection_made on a cleaned-up channel) *)
+Definition create_step_gen (guard : bool) (c : nat) (tr : bool) (x : cx) : cx :=
   match pc (x_ch x) with
   | CStart => if tr
               then xp (KtOpen c) (upc (fun ch => set_pc CWaitOpen (set_reg true ch)) x)
               else create_done c WErr x                       (* add_channel raises *)
   | COpenRes WOk =>
+      if guard && negb (reg (x_ch x)) then create_done c WErr x
+      else
       let x := upc (fun ch => addlog CbMade (set_se SLive ch)) x in
       make_request c (if pty (x_ch x) then StPty else StFinal) x
   | COpenRes _ => create_done c WErr x
@@ -366,12 +369,17 @@ Definition start_reading (c : nat) (x : cx) : cx :=
   | _ => x
   end.
 
-(* _finish_open_request (synchronous session object) *)
+(* _finish_open_request (synchronous session object).  When the connection went away in between,
+   the session object is told connection_lost(None) (5e4160a) and dropped. *)
 Definition finish_open (c : nat) (x : cx) : cx :=
   if reg (x_ch x)
   then upc (fun ch => set_handle true (addlog CbMade (set_rs ROpen (set_ss SOpen (set_se SLive ch)))))
            (xp (KtConfirm c) x)
-  else xk (KChanCleanup c false) x.
+  else xk (KChanCleanup c false)
+          (match se (x_ch x) with
+           | SNone => upc (fun ch => addlog (CbLost false) (set_se SGone ch)) x
+           | _ => x
+           end).
 
 (* awaited calls of the application on a channel it holds *)
 Definition chan_wait_closed (c : nat) (x : cx) : cx :=
@@ -453,21 +461,21 @@ Definition conn_cleanup (e : bool) (s : conn) : conn :=
   let s := if owner_live s then set_owner_live false (set_olog (olog s ++ [OLost e]) s) else s in
   set_cclosed_w 0 (add_done (repeat (WConnClosed, 0, WOk) (cclosed_w s)) (set_closed true s)).
 
-Definition run_kont (k : kont) (s : conn) : conn :=
+Definition run_kont_gen (guard : bool) (k : kont) (s : conn) : conn :=
   match k with
   | KConnCleanup e => conn_cleanup e s
   | KChanCleanup c e => on_chan c (chan_cleanup c e) s
-  | KCreate c => on_chan c (create_step c (transport s)) s
+  | KCreate c => on_chan c (create_step_gen guard c (transport s)) s
   | KStartReading c => on_chan c (start_reading c) s
   | KFinishOpen c => on_chan c (finish_open c) s
   end.
-Definition run_ready (s : conn) : conn :=
+Definition run_ready_gen (guard : bool) (s : conn) : conn :=
   match ready s with
   | [] => s
-  | k :: r => run_kont k (set_ready r s)
+  | k :: r => run_kont_gen guard k (set_ready r s)
   end.
-Fixpoint drain (fuel : nat) (s : conn) : conn :=
-  match fuel with O => s | S f => drain f (run_ready s) end.
+Fixpoint drain_gen (guard : bool) (fuel : nat) (s : conn) : conn :=
+  match fuel with O => s | S f => drain_gen guard f (run_ready_gen guard s) end.
 
 (* potential: bounds the number of run_ready steps until the ready queue is empty *)
 Definition pc_pot (p : cpc) : nat :=
@@ -488,7 +496,7 @@ Definition pot (s : conn) : nat := sum_of kont_pot (ready s) + sum_of (fun ch =>
    MAC check, which changes nothing because _send and _force_close are then no-ops) *)
 Definition rx (f : conn -> conn) (s : conn) : conn :=
   if transport s then f s
-  else if rx_ok s then f (set_late_used true (set_rx_ok false s))
+  else if rx_ok s then f (set_rx_ok false s)
   else s.
 (* a channel message: handler looked up in conn._channels, then the handler's own state check *)
 Definition chan_pkt (c : nat) (guard : chan -> bool) (f : cx -> cx) (s : conn) : conn :=
@@ -516,7 +524,7 @@ Inductive op :=
 
 Definition is_open_wait (ch : chan) : bool := match pc ch with CWaitOpen => true | _ => false end.
 
-Definition step (s : conn) (o : op) : conn :=
+Definition step_gen (guard : bool) (s : conn) (o : op) : conn :=
   match o with
   | LOpen p k => set_ready (ready s ++ [KCreate (length (chans s))])
                    (set_chans (chans s ++ [new_chan CStart p k false false]) s)
@@ -565,12 +573,22 @@ Definition step (s : conn) (o : op) : conn :=
                             then set_connect_w false (add_done [(WConnect, 0, WOk)] (set_olog (olog s ++ [OAuth]) s))
                             else s) s
   | Cut => force_close true s
-  | RunReady => run_ready s
-  | Settle => drain (pot s) s
+  | RunReady => run_ready_gen guard s
+  | Settle => drain_gen guard (pot s) s
   end.
 
+(* the model of record: /repo HEAD *)
+Definition create_step := create_step_gen true.
+Definition run_kont := run_kont_gen true.
+Definition run_ready := run_ready_gen true.
+Definition drain := drain_gen true.
+Definition step := step_gen true.
+(* the code before cd5d87d *)
+Definition step_old := step_gen false.
+
 Definition run (ops : list op) (s : conn) : conn := fold_left step ops s.
+Definition run_old (ops : list op) (s : conn) : conn := fold_left step_old ops s.
 
 (* a fresh connection: transport up, handshake in progress, connect() waiting, owner told
    connection_made *)
-Definition init : conn := mkConn [] true true false 0 0 true true [OMade] [] [] [] false.
+Definition init : conn := mkConn [] true true false 0 0 true true [OMade] [] [] [].
